@@ -65,43 +65,33 @@ ExtHeads == <<
   <<116, 101, 120, 116, 47, 104, 116, 109, 108, 59, 108, 101, 118, 101, 108>>    \*  4  text/html;level
 >>
 Tok_ext == <<
-  <<97, 116, 116, 97, 99, 104, 109, 101, 110, 116>>,   \*  1  attachment
-  <<59>>,   \*  2  ;
-  <<32>>,   \*  3  SP
-  <<102, 105, 108, 101, 110, 97, 109, 101>>,   \*  4  filename
-  <<42, 61>>,   \*  5  *=
-  <<42, 48, 42, 61>>,   \*  6  *0*=
-  <<42, 49, 42, 61>>,   \*  7  *1*=
-  <<42, 48, 61>>,   \*  8  *0=
-  <<42, 49, 61>>,   \*  9  *1=
+  <<97, 59, 98>>,   \*  1  a;b
+  <<42, 61>>,   \*  2  *=
+  <<42, 48, 42, 61>>,   \*  3  *0*=
+  <<59, 98, 42, 49, 42, 61>>,   \*  4  ;b*1*=
+  <<39, 39>>,   \*  5  ''
+  <<117, 116, 102, 45, 56>>,   \*  6  utf-8
+  <<117, 116, 45, 102, 56>>,   \*  7  ut-f8
+  <<37, 67, 51, 37, 65, 57>>,   \*  8  %C3%A9
+  <<37, 70, 70>>,   \*  9  %FF
   <<39>>,   \* 10  '
-  <<39, 39>>,   \* 11  ''
-  <<117, 116, 102, 45, 56>>,   \* 12  utf-8
-  <<117, 116, 45, 102, 56>>,   \* 13  ut-f8
-  <<114, 111, 116, 49, 51>>,   \* 14  rot13
-  <<105, 115, 111, 45, 56, 56, 53, 57, 45, 49>>,   \* 15  iso-8859-1
-  <<117, 115, 97, 115, 99, 105, 105>>,   \* 16  usascii
-  <<37, 67, 51, 37, 65, 57>>,   \* 17  %C3%A9
-  <<37, 70, 70>>,   \* 18  %FF
-  <<37>>,   \* 19  %
-  <<37, 67, 51>>,   \* 20  %C3
-  <<101, 110>>,   \* 21  en
-  <<97>>,   \* 22  a
-  <<61>>,   \* 23  =
-  <<34>>,   \* 24  "
-  <<42>>,   \* 25  *
-  <<105, 100, 110, 97>>,   \* 26  idna
-  <<117, 110, 100, 101, 102, 105, 110, 101, 100>>,   \* 27  undefined
-  <<85, 84, 70, 95, 56>>,   \* 28  UTF_8
-  <<116, 101, 120, 116, 47, 104, 116, 109, 108>>,   \* 29  text/html
-  <<44>>    \* 30  ,
+  <<59, 98, 42, 49, 61>>,   \* 11  ;b*1=
+  <<114, 111, 116, 49, 51>>,   \* 12  rot13
+  <<105, 115, 111, 45, 56, 56, 53, 57, 45, 49>>,   \* 13  iso-8859-1
+  <<117, 115, 97, 115, 99, 105, 105>>,   \* 14  usascii
+  <<37>>,   \* 15  %
+  <<37, 67, 51>>,   \* 16  %C3
+  <<101, 110>>,   \* 17  en
+  <<59>>,   \* 18  ;
+  <<61>>,   \* 19  =
+  <<105, 100, 110, 97>>,   \* 20  idna
+  <<117, 110, 100, 101, 102, 105, 110, 101, 100>>,   \* 21  undefined
+  <<85, 84, 70, 95, 56>>    \* 22  UTF_8
 >>
 Ctx_ext == <<
-  <<<<>>, <<>>>>,   \* (empty) _ (empty)
   <<<<97, 59, 32, 98, 42, 61>>, <<39, 39, 37, 67, 51, 37, 65, 57>>>>,   \* a;SPb*= _ ''%C3%A9
   <<<<97, 59, 32, 98, 42, 61, 117, 116, 102, 45, 56, 39>>, <<39, 37, 70, 70>>>>,   \* a;SPb*=utf-8' _ '%FF
   <<<<97, 59, 32, 98, 42, 61, 117, 116, 102, 45, 56, 39, 39, 37>>, <<>>>>,   \* a;SPb*=utf-8''% _ (empty)
-  <<<<97, 59, 32, 98, 42, 48, 42, 61, 117, 116, 45, 102, 56, 39, 39, 37, 67, 51, 59, 32, 98, 42, 49, 42, 61, 37, 65>>, <<>>>>,   \* a;SPb*0*=ut-f8''%C3;SPb*1*=%A _ (empty)
   <<<<97, 59, 32, 98, 42, 61, 117, 116>>, <<102, 56, 39, 39, 37, 52, 49>>>>    \* a;SPb*=ut _ f8''%41
 >>
 RangeOf(s) == {s[i] : i \in 1..Len(s)}
